@@ -239,6 +239,7 @@ package main
 //@   requires [C13] s != nil && msg != nil && msg.Sub != nil && globals.hub != nil && store.Store != nil
 //@   requires [C13,assumed] live: s.inflightReqs != nil
 //@   modifies *
+//@   ensures [C14] mark_balanced_or_forwarded: inflight[s.inflightReqs] == old(inflight[s.inflightReqs]) || (inflight[s.inflightReqs] == old(inflight[s.inflightReqs]) + 1 && sentTotal() > old(sentTotal()))
 //@   nopanic
 //@   safe
 //@ func (s *Session) leave(msg *ClientComMessage)
@@ -249,6 +250,7 @@ package main
 //@   requires [C13,assumed] live: s.inflightReqs != nil
 //@   modifies *
 //@   ensures [C13] answered: outTotal > old(outTotal) || sentTotal() > old(sentTotal())
+//@   ensures [C14] mark_balanced_or_forwarded: inflight[s.inflightReqs] == old(inflight[s.inflightReqs]) || (inflight[s.inflightReqs] == old(inflight[s.inflightReqs]) + 1 && sentTotal() > old(sentTotal()))
 //@   nopanic
 //@   safe
 //@ func (s *Session) get(msg *ClientComMessage)
@@ -780,3 +782,16 @@ package main
 //@   requires [C14] true
 //@   modifies *
 //@   locksafe
+
+// C14: request bookkeeping. Every in-flight mark a handler sets is either cleared by the handler itself or travels with
+// the request it forwarded (the receiver clears it): no path leaves a mark behind, which would block the session.
+//@ ghost var inflight map[int]int
+//@ func (w *boundedWaitGroup) Add(delta int)
+//@   trusted
+//@   modifies inflight[w]
+//@   ensures delta > 0 ==> inflight[w] == old(inflight[w]) + delta
+//@   ensures delta <= 0 ==> inflight[w] == old(inflight[w])
+//@ func (w *boundedWaitGroup) Done()
+//@   trusted
+//@   modifies inflight[w]
+//@   ensures inflight[w] == old(inflight[w]) - 1
